@@ -95,13 +95,17 @@ def span_for(kind, L):
         return range(10, 10 + L)
     if kind == 'str':
         return [f'p{i + 1}' for i in range(L)]
+    if kind == 'names':
+        # period labels that spell the model's own alias and variable names: a label is never a name
+        return [a for a in _LABEL_NAMES[:L]] + [f'p{i + 1}' for i in range(len(_LABEL_NAMES), L)]
     if kind == 'period':
         import pandas as pd
         return pd.period_range('2001', periods=L, freq='Y')
     raise ValueError(kind)
 
 
-SPAN_KINDS = ['range', 'str', 'period']
+SPAN_KINDS = ['range', 'str', 'period', 'names']
+_LABEL_NAMES = []   # set per record by the replayer: the concrete alias / variable names in use
 
 _fn_cache = {}
 
@@ -213,6 +217,7 @@ class Replayer:
         self.strict = bool((idx // 3 + seed) % 2)
         self.seqkind = ['list', 'tuple', 'ndarray'][(idx + seed) % 3]
         self.L = 3
+        _LABEL_NAMES[:] = [self.nm['a1'], self.nm['V1'], self.nm['a2']]
         self.span = span_for(self.span_kind, self.L)
         self.labels = list(self.span)
         self.names = [self.nm[n] for n in rec['names']]
